@@ -135,3 +135,22 @@ Fixpoint spaced (sel : piece -> bool) (ps : list piece) : Prop :=
   | [] => True
   | p :: r => (sel p = true -> starts_digit_or_comma (render r) = false) /\ spaced sel r
   end.
+
+(* ordinary text: what can never be part of a colour sequence or be a control byte -
+   everything but the seven control bytes, the digits and the comma *)
+Definition erasable (b : N) : bool := is_ctrl b || is_digit b || N.eqb b comma_c.
+Definition plain_text (s : str) : str := filter (fun b => negb (erasable b)) s.
+
+(* a is b with some bytes deleted *)
+Inductive subseq : str -> str -> Prop :=
+| sub_nil : subseq [] []
+| sub_keep c a b : subseq a b -> subseq (c :: a) (c :: b)
+| sub_drop c a b : subseq a b -> subseq a (c :: b).
+
+(* tokens: the known ones, or any other {word} made of letters (for which `expected1` is
+   the empty string: Fmt deletes it) *)
+Definition word_or_known (p : piece) : Prop :=
+  match p with
+  | Tok n => forallb is_alpha n = true
+  | _ => known1 p
+  end.
